@@ -973,7 +973,7 @@ class Steward(object):
         """
         Restart incomer timer
         """
-        incomer.timer.restart()
+        self.incomer.timer.restart()
 
     def respond(self):
         """
